@@ -15,13 +15,22 @@ TsMsgs == {D(1, 8, 1, 0, 1), D(2, 8, 1, 1000, 1), D(3, 8, 1, 16777214, 1), D(4, 
 MixMsgs == {D(1, 8, 1, 0, 0), D(2, 8, 1, 40, 1), D(3, 9, 1, 40, 128), D(4, 9, 1, 80, 129), D(5, 8, 1, 80, 257),
             D(6, 8, 2, 120, 129), D(7, 9, 1, 120, 257)}
 \* Set Chunk Size between and inside other messages
-ScsMsgs == {S(1, 1), S(2, 4096), S(3, 127), D(4, 8, 1, 0, 5), D(5, 9, 1, 10, 129), D(6, 8, 1, 20, 300), UC(7, 0)}
+ScsMsgs == {S(1, 3), S(2, 4096), S(3, 127), D(4, 8, 1, 0, 5), D(5, 9, 1, 10, 130), D(6, 8, 1, 20, 7), UC(7, 0)}
+ScsMsgsQ == {S(1, 3), S(2, 4096), D(5, 9, 1, 10, 130), D(6, 8, 1, 20, 7)}
 \* basic header forms
 FormMsgs == {D(1, 8, 1, 0, 1), D(2, 9, 1, 16777215, 130), D(3, 8, 1, 16777215, 1)}
 \* documented librtmp form and the rule violations
 PingMsgs == {UC(1, 0), UC(2, 7), D(3, 8, 1, 0, 130), D(4, 8, 1, 5, 3)}
 
+\* simulation: the unfactored product
+SimMsgs == {D(1, 8, 1, 0, 0), D(2, 8, 1, 40, 1), D(3, 9, 1, 16777214, 128), D(4, 9, 2, 16777215, 129), D(5, 8, 1, 16777216, 257),
+            D(6, 18, 1, 33554430, 300), D(7, 9, 1, 2147483647, 5), D(8, 8, 1, 1000, 130), D(9, 20, 0, 2000, 64), D(10, 9, 1, 2000, 64),
+            D(11, 8, 1, 16779216, 1), D(12, 9, 1, 33556430, 7),
+            S(13, 3), S(14, 4096), S(15, 127), S(16, 64), UC(17, 0), UC(18, 5000)}
+\* control messages among the completed ones, keyed by id, so that the replayer knows their bodies
+Bodies == [i \in {ToString(order[k].id) : k \in {j \in 1..Len(order) : order[j].ctl # "none"}} |->
+             LET m == CHOOSE x \in Msgs : ToString(x.id) = i IN [ctl |-> m.ctl, scs |-> m.scs]]
 Emit == Done => PrintT(<<"CASE", ToJson([wire |-> [i \in 1..Len(wire) |-> ChunkLD(wire[i])],
                                          expect |-> Decode(wire).out, err |-> dead,
-                                         nchunks |-> Len(wire)])>>)
+                                         nchunks |-> Len(wire), bodies |-> Bodies])>>)
 =============================================================================
